@@ -193,6 +193,9 @@ class Interp:
         # indeterminates standing for a *generic* positive quantity (a radius away from the origin):
         # non-zero and larger than every literal cut-off below SMALL
         self.generic = set(generic)
+        # indeterminates known to be strictly increasing in this configuration (a finite set of
+        # orderings is enumerated by the caller): decides min / max / comparisons among them
+        self.chain = []
         self.depth = 0
         self.trace = []
 
@@ -528,6 +531,8 @@ class Interp:
                 return float(v) if not isinstance(v, sp.Integer) else int(v)
             return None
         a, b = num(left), num(right)
+        if a is None and b is None and left in self.chain and right in self.chain:
+            a, b = self.chain.index(left), self.chain.index(right)
         if a is None or b is None:
             # a generic positive quantity against a literal
             flip = {ast.Lt: ast.Gt, ast.Gt: ast.Lt, ast.LtE: ast.GtE, ast.GtE: ast.LtE, ast.Eq: ast.Eq, ast.NotEq: ast.NotEq}
@@ -694,6 +699,9 @@ class Interp:
             try:
                 ints = [self._int(v) for v in vals]
             except Undecided:
+                if vals and all(v in self.chain for v in vals):
+                    pos = [self.chain.index(v) for v in vals]
+                    return self.chain[min(pos) if name == "min" else max(pos)]
                 raise Undecided(f"{name} of symbolic data") from None
             return min(ints) if name == "min" else max(ints)
         raise Undecided(f"builtin {name}")
@@ -707,6 +715,9 @@ class Interp:
             return out
         if name in ("array", "asarray"):
             return _obj_array(args[0])
+        if name == "atleast_1d":
+            v = args[0] if isinstance(args[0], np.ndarray) else _obj_array(args[0])
+            return v.reshape(1) if v.ndim == 0 else v
         if name in ("vstack", "hstack", "concatenate"):
             parts = [x if isinstance(x, np.ndarray) else _obj_array(x) for x in args[0]]
             if name == "vstack":
